@@ -233,7 +233,8 @@ def replay_sqlite(chk, sql, model_vals):
         cur = con.execute(s2, params)
         return cur.rowcount == 1
     # SELECT: wrap as existence test of the WHERE over the one row
-    m = re.search(r"\bWHERE\b", s, re.I)
+    ms = list(re.finditer(r"\bWHERE\b", s, re.I))
+    m = ms[chk.get("where_index", 1) - 1]
     tail = s[m.end():]
     tail = re.split(r"\b(ORDER|GROUP|LIMIT)\b", tail, flags=re.I)[0]
     # cut an unbalanced closing parenthesis (sub-select)
